@@ -437,6 +437,7 @@ def main(argv=None):
 def do_replay(prop, spec, args, scratch):
     with open(args.replay) as fh:
         doc = json.load(fh)
+    doc["_path"] = args.replay
     tier = doc.get("tier") or args.tier
     hashseed = str(doc.get("hashseed", "0"))
     farm = Farm(prop, tier, 1, scratch, hashseed=hashseed, tag="r")
